@@ -6,6 +6,7 @@ package world
 import (
 	"io"
 	"io/fs"
+	"runtime"
 	"sort"
 	"strings"
 	"syscall"
@@ -75,6 +76,29 @@ type Op struct {
 	Mut   bool   `json:"mut,omitempty"`   // changed (or, when it failed by injection, would have changed) the filesystem
 	Fault string `json:"fault,omitempty"` // kind of the injected fault that struck this op
 	Post  bool   `json:"post,omitempty"`  // issued after the process was killed; had no effect
+	Site  string `json:"site,omitempty"`  // gopatch function that issued a mutating op
+	H     int    `json:"h,omitempty"`     // handle number for open/read/write/close/... (0 = none or stream)
+}
+
+// callSite returns the innermost gopatch function on the stack.
+func callSite() string {
+	var pcs [24]uintptr
+	n := runtime.Callers(3, pcs[:])
+	frames := runtime.CallersFrames(pcs[:n])
+	for {
+		fr, more := frames.Next()
+		if strings.HasPrefix(fr.Function, "github.com/uber-go/gopatch") {
+			fn := strings.TrimPrefix(fr.Function, "github.com/uber-go/gopatch")
+			fn = strings.TrimLeft(fn, "/.")
+			if i := strings.Index(fn, ".func"); i > 0 {
+				fn = fn[:i]
+			}
+			return fn
+		}
+		if !more {
+			return ""
+		}
+	}
 }
 
 // Kill is the panic value that unwinds the program after an injected kill.
@@ -95,7 +119,6 @@ type World struct {
 	tick    int64
 
 	Log    []Op
-	Fired  []Op // ops at which a fault actually fired
 	Frozen bool // killed: nothing has effect any more
 	Killed bool
 	ExitCode   int
@@ -103,6 +126,8 @@ type World struct {
 
 	Stdout []byte
 	Stderr []byte
+	nextH  int
+	FiredSeq []int
 	// OutEvents records the order of stream writes: (seq, fd, n)
 	stdinPos   int
 	stdinErr   syscall.Errno
@@ -365,6 +390,9 @@ func (w *World) begin(name, path string) (op *Op, flt *Fault, ok bool) {
 }
 
 func (w *World) end(op *Op) {
+	if op.Mut && op.Site == "" && !op.Post {
+		op.Site = callSite()
+	}
 	if w.InvariantHook != nil && !op.Post {
 		w.InvariantHook(w, op)
 	}
@@ -372,14 +400,26 @@ func (w *World) end(op *Op) {
 
 func (w *World) fired(op *Op, f *Fault) {
 	op.Fault = f.Kind
-	w.Fired = append(w.Fired, *op)
+	if f.Kind == "fail" {
+		op.Err = ErrnoName(faultErrno(f))
+	}
+	w.FiredSeq = append(w.FiredSeq, op.Seq)
+}
+
+// FiredOps returns the ops at which faults fired, as finally logged.
+func (w *World) FiredOps() []Op {
+	var out []Op
+	for _, s := range w.FiredSeq {
+		out = append(out, w.Log[s])
+	}
+	return out
 }
 
 // kill freezes the world and unwinds the program.
 func (w *World) kill(op *Op, f *Fault) {
 	op.Fault = "kill"
 	op.Err = "KILLED"
-	w.Fired = append(w.Fired, *op)
+	w.FiredSeq = append(w.FiredSeq, op.Seq)
 	w.Frozen = true
 	w.Killed = true
 	panic(Kill{AtOp: op.Seq})
@@ -530,6 +570,7 @@ func (w *World) Stat(name string, follow bool) (*FileStat, syscall.Errno) {
 // Handles
 
 type Handle struct {
+	id      int
 	w       *World
 	Name    string // as given to open
 	abs     string
@@ -597,7 +638,9 @@ func (w *World) OpenFile(name string, flag int, perm fs.FileMode) (*Handle, sysc
 		w.touch(n)
 		op.Mut = true
 		op.Ino = n.Ino
-		return &Handle{w: w, Name: name, abs: abs, node: n, flag: flag}, 0
+		w.nextH++
+		op.H = w.nextH
+		return &Handle{id: w.nextH, w: w, Name: name, abs: abs, node: n, flag: flag}, 0
 	}
 	if e != 0 {
 		return fail(e)
@@ -627,7 +670,9 @@ func (w *World) OpenFile(name string, flag int, perm fs.FileMode) (*Handle, sysc
 		w.touch(n)
 		op.Mut = true
 	}
-	return &Handle{w: w, Name: name, abs: abs, node: n, flag: flag}, 0
+	w.nextH++
+	op.H = w.nextH
+	return &Handle{id: w.nextH, w: w, Name: name, abs: abs, node: n, flag: flag}, 0
 }
 
 func (h *Handle) World() *World { return h.w }
@@ -659,6 +704,7 @@ func (h *Handle) Read(b []byte) (n int, eof bool, errno syscall.Errno) {
 		name = "stdin"
 	}
 	op, f, ok := w.begin(name, h.abs)
+	op.H = h.id
 	defer w.end(op)
 	if !ok {
 		return 0, false, syscall.EIO
@@ -770,6 +816,7 @@ func (h *Handle) Write(b []byte) (int, syscall.Errno) {
 		name = "stderr"
 	}
 	op, f, ok := w.begin(name, h.abs)
+	op.H = h.id
 	defer w.end(op)
 	if !ok {
 		return 0, syscall.EIO
@@ -851,6 +898,7 @@ func (h *Handle) Write(b []byte) (int, syscall.Errno) {
 func (h *Handle) Close() syscall.Errno {
 	w := h.w
 	op, f, ok := w.begin("close", h.abs)
+	op.H = h.id
 	defer w.end(op)
 	if !ok {
 		return syscall.EIO
@@ -873,6 +921,7 @@ func (h *Handle) Close() syscall.Errno {
 func (h *Handle) Sync() syscall.Errno {
 	w := h.w
 	op, f, ok := w.begin("sync", h.abs)
+	op.H = h.id
 	defer w.end(op)
 	if !ok {
 		return syscall.EIO
@@ -913,6 +962,7 @@ func (h *Handle) Seek(off int64, whence int) (int64, syscall.Errno) {
 func (h *Handle) Stat() (*FileStat, syscall.Errno) {
 	w := h.w
 	op, f, ok := w.begin("fstat", h.abs)
+	op.H = h.id
 	defer w.end(op)
 	if !ok {
 		return nil, syscall.EIO
@@ -935,6 +985,7 @@ func (h *Handle) Stat() (*FileStat, syscall.Errno) {
 func (h *Handle) Truncate(size int64) syscall.Errno {
 	w := h.w
 	op, f, ok := w.begin("ftruncate", h.abs)
+	op.H = h.id
 	defer w.end(op)
 	if !ok {
 		return syscall.EIO
@@ -967,6 +1018,7 @@ func (w *World) truncNode(n *Inode, size int64) {
 func (h *Handle) Chmod(mode fs.FileMode) syscall.Errno {
 	w := h.w
 	op, f, ok := w.begin("fchmod", h.abs)
+	op.H = h.id
 	defer w.end(op)
 	if !ok {
 		return syscall.EIO
@@ -996,6 +1048,7 @@ type DirEntryInfo struct {
 func (h *Handle) ReadDirNames(n int) ([]DirEntryInfo, bool, syscall.Errno) {
 	w := h.w
 	op, f, ok := w.begin("readdir", h.abs)
+	op.H = h.id
 	defer w.end(op)
 	if !ok {
 		return nil, false, syscall.EIO
